@@ -372,8 +372,8 @@ SumLens(st, S) == IF S = {} THEN 0 ELSE LET x == CHOOSE x \in S : TRUE IN SegLen
 \* remove_small_components(minlen): every dovetail-connected component whose total
 \* segment length is below minlen is removed (with the dependants of its segments)
 RemoveSmallComponents(st, minlen) ==
-  IF Ambiguous(st) \/ PlaceholderIds(st) # {} \/ VirtLinkKeys(st) # {}
-     \/ \E id \in SegIds(st) : SegLen(st, id) < 0
+  IF st.orph \/ PlaceholderIds(st) # {} \/ \E id \in SegIds(st) : SegLen(st, id) < 0 THEN {Fail(st, "NotFoundError"), Fail(st, "Error"), Unmodelled(st)}
+  ELSE IF Ambiguous(st) \/ PlaceholderIds(st) # {} \/ VirtLinkKeys(st) # {}
     THEN {Unmodelled(st)}
   ELSE LET small == {c \in Components(st) : SumLens(st, c) < minlen}
            segs == UNION small IN
